@@ -33,6 +33,15 @@ TArith == /\ Ev.e = "Arith"
                           /\ SaturatingAgainst(ArithDef(Ev.op, Ev.b, Ev.a, bits), Ev.op, bits, Ev.res[i].sc))
           /\ UNCHANGED sizebits
 
+(* the checked forms expanded inside a loop over several operand pairs: every pair by itself *)
+TArithLoop == /\ Ev.e = "ArithLoop"
+              /\ LET bits == Bits(Ev.ty) IN
+                 Chk(\A i \in 1..Len(Ev.pairs) :
+                        /\ Fits(Ev.pairs[i].a, bits) /\ Fits(Ev.pairs[i].b, bits)
+                        /\ LET d == ArithDef(Ev.op, Ev.pairs[i].a, Ev.pairs[i].b, bits)
+                           IN (Ev.ok[i] = 1) <=> d.ok /\ (d.ok => WEq(Ev.pairs[i].r, d.r)))
+              /\ UNCHANGED sizebits
+
 TBits == /\ Ev.e = "Bits"
          /\ LET bits == Bits(Ev.ty) IN
             /\ Chk(Fits(Ev.a, bits)) /\ Len(Ev.res) >= 1
@@ -61,7 +70,7 @@ TConv == /\ Ev.e = "Conv"
 
 TEnd == Ev.e = "End" /\ Ev.live = 0 /\ UNCHANGED sizebits
 
-TNext == l <= TraceLen /\ l' = l + 1 /\ (TReset \/ TArith \/ TBits \/ TPow2 \/ TMinMax \/ TConv \/ TEnd)
+TNext == l <= TraceLen /\ l' = l + 1 /\ (TReset \/ TArith \/ TArithLoop \/ TBits \/ TPow2 \/ TMinMax \/ TConv \/ TEnd)
 TInit == l = 1 /\ sizebits = 64
 TSpec == TInit /\ [][TNext]_<<l, sizebits>>
 =============================================================================
